@@ -13,6 +13,7 @@ import (
 	"mime"
 	"net/http"
 	gort "runtime"
+	"sort"
 	"strings"
 	"sync"
 	"time"
@@ -104,31 +105,55 @@ type record struct {
 	bodyErr     error
 }
 
+// history collects the events of a case for the failure report. It must not synchronise the calls with each
+// other (a mutex or an atomic counter here would create happens-before edges between the goroutines and hide
+// data races of the code under test from the race detector): every call appends to its own list, from its own
+// goroutine, and the lists are merged by their monotonic time stamps when a report is printed. The time stamps
+// order the printout only; no decision depends on them.
 type history struct {
-	mu    sync.Mutex
-	lines []string
+	t0    time.Time
+	lists [][]event
 }
 
-func (h *history) logf(format string, args ...interface{}) {
-	h.mu.Lock()
-	h.lines = append(h.lines, fmt.Sprintf(format, args...))
-	h.mu.Unlock()
+type event struct {
+	at   time.Duration
+	text string
 }
 
+func newHistory(calls int) *history {
+	return &history{t0: time.Now(), lists: make([][]event, calls)}
+}
+
+// logf records an event of call i; only the goroutine running call i may use it.
+func (h *history) logf(i int, format string, args ...interface{}) {
+	h.lists[i] = append(h.lists[i], event{time.Since(h.t0), fmt.Sprintf(format, args...)})
+}
+
+// String merges the lists; it is called after all calls have finished.
 func (h *history) String() string {
-	h.mu.Lock()
-	defer h.mu.Unlock()
-	lines := h.lines
-	more := ""
-	if len(lines) > 80 {
-		more = fmt.Sprintf("\n  …(%d more events)", len(lines)-80)
-		lines = lines[:80]
+	var all []event
+	for _, l := range h.lists {
+		all = append(all, l...)
 	}
-	return "  " + strings.Join(lines, "\n  ") + more
+	sort.SliceStable(all, func(a, b int) bool { return all[a].at < all[b].at })
+	more := ""
+	if len(all) > 100 {
+		more = fmt.Sprintf("\n  …(%d more events)", len(all)-100)
+		all = all[:100]
+	}
+	var b strings.Builder
+	for k, ev := range all {
+		if k > 0 {
+			b.WriteString("\n")
+		}
+		fmt.Fprintf(&b, "  %9.3fms %s", float64(ev.at.Microseconds())/1000, ev.text)
+	}
+	return b.String() + more
 }
 
 type env struct {
 	calls map[string]*Call
+	index map[string]int
 	recs  map[string]*record
 	hist  *history
 }
@@ -144,11 +169,11 @@ type transport struct {
 func (t *transport) RoundTrip(req *http.Request) (*http.Response, error) {
 	tok := req.URL.Query().Get("tok")
 	ctxTag, _ := req.Context().Value(ctxKey{}).(string)
-	t.e.hist.logf("transport[%s]: request tok=%q header-tok=%q ctx=%q ctx-err=%v", t.tag, tok, req.Header.Get("X-Tok"), ctxTag, req.Context().Err())
 	call, ok := t.e.calls[tok]
 	if !ok {
 		return nil, fmt.Errorf("scripted transport: unknown token %q", tok)
 	}
+	t.e.hist.logf(t.e.index[tok], "transport[%s]: request tok=%q header-tok=%q ctx=%q ctx-err=%v", t.tag, tok, req.Header.Get("X-Tok"), ctxTag, req.Context().Err())
 	rec := t.e.recs[tok]
 	rec.via = append(rec.via, t.tag)
 	rec.ctxTag = append(rec.ctxTag, ctxTag)
@@ -256,11 +281,12 @@ func Check(c Case) *kit.Violation {
 		prev := gort.GOMAXPROCS(c.Procs)
 		defer gort.GOMAXPROCS(prev)
 	}
-	e := &env{calls: map[string]*Call{}, recs: map[string]*record{}, hist: &history{}}
+	e := &env{calls: map[string]*Call{}, index: map[string]int{}, recs: map[string]*record{}, hist: newHistory(len(c.Calls))}
 	toks := make([]string, len(c.Calls))
 	for i := range c.Calls {
 		toks[i] = fmt.Sprintf("tok-%d-%s", i, strings.Repeat("x", i%3))
 		e.calls[toks[i]] = &c.Calls[i]
+		e.index[toks[i]] = i
 		e.recs[toks[i]] = &record{tok: toks[i], got: map[string]headerObs{}}
 	}
 
@@ -300,7 +326,7 @@ func Check(c Case) *kit.Violation {
 					rec.got[q] = headerObs{resp.GetHeader(q), resp.GetHeaders(q)}
 				}
 				rec.body, rec.bodyErr = io.ReadAll(resp.Body())
-				e.hist.logf("call %d: reader runs: consumer=%v code=%d token header=%q body starts %q", i, cons, rec.code, resp.GetHeader("X-Tok"), clip(rec.body, 16))
+				e.hist.logf(i, "call %d: reader runs: consumer=%v code=%d token header=%q body starts %q", i, cons, rec.code, resp.GetHeader("X-Tok"), clip(rec.body, 16))
 				if call.ReaderErr {
 					return nil, readerErr{tok}
 				}
@@ -311,9 +337,9 @@ func Check(c Case) *kit.Violation {
 			op.Client = &http.Client{Transport: &transport{"operation-client", e}}
 		}
 		op.Context = newCtx(call.OpCtx, "operation-context")
-		e.hist.logf("call %d: Submit tok=%q", i, tok)
+		e.hist.logf(i, "call %d: Submit tok=%q", i, tok)
 		rec.panicked = kit.Guard("Runtime.Submit", func() { rec.res, rec.err = rt.Submit(op) })
-		e.hist.logf("call %d: Submit returned result=%v err=%v", i, rec.res, rec.err)
+		e.hist.logf(i, "call %d: Submit returned result=%v err=%v", i, rec.res, rec.err)
 	}
 
 	if !c.Concurrent {
